@@ -2,7 +2,10 @@ module verif/engine
 
 go 1.23
 
-require golang.org/x/tools v0.29.0
+require (
+	golang.org/x/net v0.34.0
+	golang.org/x/tools v0.29.0
+)
 
 require (
 	golang.org/x/mod v0.22.0 // indirect
